@@ -107,7 +107,7 @@ theorem isort_sorted (l : List Mapping) :
   | nil => simp [isort]
   | cons x xs ih => exact insertByLen_sorted x (isort xs) ih
 
-/-- the sorter the driver runs (stable insertion sort; the harness compares modulo ties) -/
+/-- the sorter the driver runs: a stable insertion sort (the name is historical and used by other models; the harness compares modulo ties) -/
 def mergeSorter : Sorter where
   sort := isort
   perm := isort_perm
